@@ -31,6 +31,8 @@ class Case:
                 cs.load(h[1], compiled=self.compiled, align=self.align)
             elif h[0] == "array":
                 _ = cs.resolve(h[1])[h[2]]
+            elif h[0] == "set_pointer":
+                cs.pointer = cs.resolve(h[1])
             elif h[0] == "add_field":
                 cs.resolve(h[1]).add_field(h[2], cs.resolve(h[3]), bits=h[4])
             else:
